@@ -14,10 +14,12 @@ points.
 -/
 import Geodesy.Props.C13
 import Geodesy.Lemmas.Mercator
+import Geodesy.Lemmas.Conic
+import Mathlib.Analysis.Real.Pi.Bounds
 
 namespace Geodesy
 namespace C05
-open Text Ops C13 Mercator
+open Text Ops C13 Mercator Conic
 
 /-! ### webmerc -/
 
@@ -129,6 +131,102 @@ theorem lcc_centre_to_false_origin (k : Lcc.Consts ℝ) (lat0 : ℝ) (r : ℝ ×
     Real.cos_zero, mul_zero, zero_add, mul_one, Option.some.injEq] at h
   rw [← h, hrho]
   simp
+
+/-- the tolerance with which lcc recognises a pole is positive -/
+theorem lcc_eps10_pos : (0 : ℝ) < Lcc.eps10 := by
+  simp [Lcc.eps10, OfScientific.ofScientific, Scalar.ofSci, Lit.toReal]
+
+/-- away from the poles (by more than the tolerance) the forward lcc is
+`x = a k_0 ρ sin θ + x_0`, `y = a k_0 (ρ_0 − ρ cos θ) + y_0` with `ρ = c·exp(−nψ(φ))`, `θ = n(λ − λ_0)` -/
+theorem lcc_fwd_eq (k : Lcc.Consts ℝ) (lam phi : ℝ) (hphi : |phi| + Lcc.eps10 < Real.pi / 2) :
+    Lcc.fwd k lam phi =
+      some (k.a * k.k0 * (k.c * Real.exp (-(psi k.e phi) * k.n)) * Real.sin ((lam - k.lon0) * k.n) + k.x0,
+            k.a * k.k0 * (k.rho0 - k.c * Real.exp (-(psi k.e phi) * k.n) * Real.cos ((lam - k.lon0) * k.n)) + k.y0) := by
+  have two : (@OfScientific.ofScientific ℝ Scalar.instOfScientific 20 true 1) = 2 := by
+    simp [OfScientific.ofScientific, Scalar.ofSci, Lit.toReal]; norm_num
+  have hp := lcc_eps10_pos
+  have habs := abs_lt.mp (show |phi| < Real.pi / 2 by linarith)
+  have hpole : Scalar.lt (Scalar.abs (Scalar.abs phi - (Lcc.fracPi2 : ℝ))) (Lcc.eps10 : ℝ) = false := by
+    simp only [Lcc.fracPi2, two, scalar_pi, scalar_abs, scalar_lt, decide_eq_false_iff_not, not_lt]
+    rw [abs_of_neg (by linarith)]
+    linarith
+  unfold Lcc.fwd
+  simp only [hpole, Bool.false_eq_true, if_false]
+  rw [rho_eq k.c k.n k.e phi habs.1 habs.2]
+  rfl
+
+/-- **lcc is conformal**, for every eccentricity `0 ≤ e < 1`, every cone constant, every parameter set and every
+point that is not within the pole tolerance of a pole: the four partial derivatives of the plane
+coordinates exist, and the derivative along the meridian, divided by the meridian radius `M`, is
+the derivative along the parallel, divided by the radius of the parallel `N cos φ`, turned by a
+right angle (the Cauchy–Riemann equations in isometric coordinates: angles and orientation
+are preserved, the scale is the same in every direction) -/
+theorem lcc_conformal (k : Lcc.Consts ℝ) (lam phi : ℝ) (he0 : 0 ≤ k.e) (he1 : k.e < 1) (ha : k.a ≠ 0)
+    (hphi : |phi| + Lcc.eps10 < Real.pi / 2) :
+    let F : ℝ → ℝ → ℝ × ℝ := fun l x => (Lcc.fwd k l x).getD (0, 0)
+    let W := Real.sqrt (1 - k.e ^ 2 * Real.sin phi ^ 2)
+    let M := k.a * (1 - k.e ^ 2) / W ^ 3
+    let P := k.a / W * Real.cos phi
+    (Lcc.fwd k lam phi).isSome ∧
+    ∃ dxl dyl dxp dyp : ℝ,
+      HasDerivAt (fun l => (F l phi).1) dxl lam ∧ HasDerivAt (fun l => (F l phi).2) dyl lam ∧
+      HasDerivAt (fun x => (F lam x).1) dxp phi ∧ HasDerivAt (fun x => (F lam x).2) dyp phi ∧
+      dxp / M = -(dyl / P) ∧ dyp / M = dxl / P := by
+  intro F W M P
+  have habs := abs_lt.mp (show |phi| < Real.pi / 2 by linarith [lcc_eps10_pos])
+  have hc : 0 < Real.cos phi := Real.cos_pos_of_mem_Ioo ⟨habs.1, habs.2⟩
+  have hes1 : k.e ^ 2 < 1 := by nlinarith
+  have hw : 0 < 1 - k.e ^ 2 * Real.sin phi ^ 2 := by
+    nlinarith [Real.sin_sq_le_one phi, sq_nonneg (Real.sin phi), sq_nonneg k.e]
+  have hW : 0 < W := Real.sqrt_pos.mpr hw
+  have hW2 : W ^ 2 = 1 - k.e ^ 2 * Real.sin phi ^ 2 := Real.sq_sqrt hw.le
+  have hW3 : W ^ 3 = W * (1 - k.e ^ 2 * Real.sin phi ^ 2) := by rw [← hW2]; ring
+  have hF : ∀ l x, |x| + Lcc.eps10 < Real.pi / 2 → F l x =
+      (k.a * k.k0 * (k.c * Real.exp (-(psi k.e x) * k.n)) * Real.sin ((l - k.lon0) * k.n) + k.x0,
+       k.a * k.k0 * (k.rho0 - k.c * Real.exp (-(psi k.e x) * k.n) * Real.cos ((l - k.lon0) * k.n)) + k.y0) := by
+    intro l x hx
+    simp only [F, lcc_fwd_eq k l x hx, Option.getD_some]
+  have hnear : ∀ᶠ x in nhds phi, |x| + Lcc.eps10 < Real.pi / 2 :=
+    (isOpen_lt (continuous_abs.add continuous_const) continuous_const).mem_nhds hphi
+  set rho := k.c * Real.exp (-(psi k.e phi) * k.n) with hrho
+  set th := (lam - k.lon0) * k.n with hth
+  set dpsi := (1 - k.e ^ 2) / ((1 - k.e ^ 2 * Real.sin phi ^ 2) * Real.cos phi) with hdpsi
+  have drho : HasDerivAt (fun x => k.c * Real.exp (-(psi k.e x) * k.n)) (-(k.n * rho * dpsi)) phi :=
+    rho_hasDerivAt k.c k.n k.e phi he0 he1 habs.1 habs.2
+  have dth : HasDerivAt (fun l : ℝ => (l - k.lon0) * k.n) (1 * k.n) lam :=
+    ((hasDerivAt_id lam).sub_const _).mul_const _
+  refine ⟨by rw [lcc_fwd_eq k lam phi hphi]; rfl,
+    k.a * k.k0 * rho * (Real.cos th * (1 * k.n)), k.a * k.k0 * (-(rho * (-Real.sin th * (1 * k.n)))),
+    k.a * k.k0 * (-(k.n * rho * dpsi)) * Real.sin th, k.a * k.k0 * (-(-(k.n * rho * dpsi) * Real.cos th)), ?_, ?_, ?_, ?_, ?_, ?_⟩
+  · have := (((Real.hasDerivAt_sin th).comp lam dth).const_mul (k.a * k.k0 * rho)).add_const k.x0
+    refine this.congr_of_eventuallyEq (Filter.Eventually.of_forall fun l => ?_)
+    simp only [hF l phi hphi]; rfl
+  · have := (((((Real.hasDerivAt_cos th).comp lam dth).const_mul rho).const_sub k.rho0).const_mul (k.a * k.k0)).add_const k.y0
+    refine this.congr_of_eventuallyEq (Filter.Eventually.of_forall fun l => ?_)
+    simp only [hF l phi hphi]; rfl
+  · have := (((drho.const_mul (k.a * k.k0)).mul_const (Real.sin th))).add_const k.x0
+    refine this.congr_of_eventuallyEq ?_
+    filter_upwards [hnear] with x hx
+    simp only [hF lam x hx]; rfl
+  · have := (((drho.mul_const (Real.cos th)).const_sub k.rho0).const_mul (k.a * k.k0)).add_const k.y0
+    refine this.congr_of_eventuallyEq ?_
+    filter_upwards [hnear] with x hx
+    simp only [hF lam x hx]; rfl
+  · have h1e : (1 - k.e ^ 2) ≠ 0 := by linarith
+    simp only [M, P, hdpsi]
+    rw [hW3]
+    field_simp
+  · have h1e : (1 - k.e ^ 2) ≠ 0 := by linarith
+    simp only [M, P, hdpsi]
+    rw [hW3]
+    field_simp
+
+/-- the hypothesis of `lcc_conformal` is met, e.g. on the equator -/
+example : |(0 : ℝ)| + Lcc.eps10 < Real.pi / 2 := by
+  have : (Lcc.eps10 : ℝ) < 1 := by
+    simp [Lcc.eps10, OfScientific.ofScientific, Scalar.ofSci, Lit.toReal]; norm_num
+  have := Real.pi_gt_three
+  rw [abs_zero, zero_add]; linarith
 
 end C05
 end Geodesy
